@@ -335,7 +335,8 @@ class Unfolder:
         if isinstance(s, ast.AugAssign):
             out = []
             for st in states:
-                cur = subst(s.target, st.env) if isinstance(s.target, ast.Name) else s.target
+                # the current value of a local is what it was bound to (the target node itself is a Store and is not substituted)
+                cur = subst(ast.Name(id=s.target.id, ctx=ast.Load()), st.env) if isinstance(s.target, ast.Name) else s.target
                 v = ast.BinOp(left=copy.deepcopy(cur), op=s.op, right=subst(s.value, st.env))
                 self.assign(st, s.target, v, ctx, s)
                 out.append(st)
